@@ -194,6 +194,7 @@ static bool content_match(const Exp &e, const Frame &f, int cls, std::string &ne
 		case Exp::R_EITHER: ok = (r != nullptr) != (er != nullptr); break;
 		case Exp::R_ANYRESULT: ok = r && !er; break;
 		case Exp::R_GETSET: ok = r && !er && get_set_equal(*r, e.payload); break;
+		case Exp::R_ERR_OR_GETSET: ok = (er && !r && er->t == JV::Obj) || (r && !er && get_set_equal(*r, e.payload)); break;
 		}
 		if (!ok) near = "response for id " + id->dump() + " has the wrong outcome/payload: expected " + e.describe();
 		return ok;
@@ -285,7 +286,7 @@ void World::after_match(Client &cl, const Exp &e, const Frame &f) {
 		if (decided) {
 			model.resolve_decision(d, ok);
 			if (!ok && matched_optional[d] > 0 && !model.decisions[d].silent_refusal)
-				violation("C01", "notified-then-refused", "subscribers were told about an element whose add was then refused (" + model.decisions[d].what + ")");
+				violation(e.prop == "C16" ? "C16" : "C01", "notified-then-refused", "notifications were sent for a request that was then refused (" + model.decisions[d].what + ")");
 			for (auto &c2 : clients) {
 				for (size_t i = 0; i < c2.expq.size();) {
 					Exp &x = c2.expq[i];
@@ -345,7 +346,7 @@ void World::on_frame(Client &cl, const Frame &f) {
 		if (cl.closing) return;
 	}
 	int cls = classify(f);
-	std::string prop = cls == 1 ? "C01" : cls == 2 ? "C03" : "C02";
+	std::string prop = cls == 1 ? model.notify_prop : cls == 2 ? "C03" : "C02";
 	std::string rule = cls == 1 ? "unexpected-notification" : cls == 2 ? "unexpected-routed-request" : cls == 0 ? "unexpected-response" : "malformed-frame";
 	std::string detail = "connection c" + std::to_string(cl.idx) + " (" + cl.transport + ") received " + frame_text(f) + " which nothing it is entitled to explains";
 	if (!why.empty()) { detail += "; closest expectation: " + why; }
